@@ -2143,6 +2143,11 @@ export class ObjectRuntype extends BaseRuntype {
         optionalized.add(k);
       } else {
         properties[k] = raw;
+        // an optional member whose type is only null / undefined has no non-null branch to keep,
+        // but it is optional all the same
+        if (item instanceof OptionalFieldRuntype) {
+          optionalized.add(k);
+        }
       }
       popPath(ctx);
     }
